@@ -28,10 +28,31 @@ static double ref_expect(int d, const std::vector<double>& rho, const std::vecto
 
 struct TimeCfg { double tini, tau; bool numerics; };
 
-static void run_grid(int d, const std::vector<double>& grid, const std::string& gname, const TimeCfg& tc, bool reduced) {
-  unsigned nx = (unsigned)grid.size(), nrho = 2;
+// a node grid and the history through which the solver object comes to hold it
+struct GridSpec { std::string name; int kind; double a, b; std::vector<double> nodes; };   // kind 0 linear, 1 log, 2 user-supplied
+enum GridHistory { GH_VECTOR, GH_NATURAL, GH_AFTER_LIN, GH_AFTER_LOG, GH_AFTER_USER, GH_MOVED_IN, N_GH };
+static const char* GHNAME[] = {"fresh object, Set_xrange(vector)", "fresh object, Set_xrange(a,b,type)", "after Set_xrange(lin) and queries", "after Set_xrange(log) and queries", "after Set_xrange(vector) and queries", "move-assigned from another object over a used one"};
+static void set_grid(Sol& s, const GridSpec& g, bool natural) { if (g.kind == 2 || !natural) s.Set_xrange(g.nodes); else s.Set_xrange(g.a, g.b, g.kind ? "log" : "lin"); }
+static void warm(Sol& s, int d) {   // x-indexed queries on whatever grid the object holds now
+  std::vector<double> x = s.Get_xrange(); squids::SQuIDS::expectationValueDBuffer b(d); SU_vector O = mkvec(d, probe(d, 2));
+  for (size_t i = 0; i + 1 < x.size(); i++) { double xm = 0.5 * (x[i] + x[i + 1]); volatile double v = s.GetExpectationValueD(O, 0, xm) + s.GetExpectationValueD(O, 0, xm, b) + s.GetIntermediateState(0, xm)[0]; (void)v; (void)s.Get_i(xm); }
+}
+
+static void run_grid(int d, const GridSpec& gs, int hist, const TimeCfg& tc, bool reduced) {
+  unsigned nx = (unsigned)gs.nodes.size(), nrho = 2;
   Sol s(nx, d, nrho, tc.tini);
-  s.Set_xrange(grid);
+  switch (hist) {
+    case GH_VECTOR: set_grid(s, gs, false); break;
+    case GH_NATURAL: set_grid(s, gs, true); break;
+    case GH_AFTER_LIN: s.Set_xrange(-1.5, 6.0, "lin"); warm(s, d); set_grid(s, gs, true); break;
+    case GH_AFTER_LOG: s.Set_xrange(0.02, 50.0, "log"); warm(s, d); set_grid(s, gs, true); break;
+    case GH_AFTER_USER: { std::vector<double> u(nx); for (unsigned i = 0; i < nx; i++) u[i] = -4.0 + 0.3 * i * i; s.Set_xrange(u); warm(s, d); set_grid(s, gs, gs.kind != 0); } break;
+    case GH_MOVED_IN: { s.Set_xrange(-1.5, 6.0, "lin"); warm(s, d); Sol other(nx, d, nrho, tc.tini); set_grid(other, gs, true); s = std::move(other); } break;
+  }
+  std::vector<double> grid = s.Get_xrange();
+  std::string gname = gs.name + " [" + GHNAME[hist] + "]";
+  { bool same = grid.size() == nx; for (unsigned i = 0; same && i < nx; i++) if (!(std::fabs(grid[i] - gs.nodes[i]) <= 1e-12 * (1 + std::fabs(gs.nodes[i])))) same = false;
+    count("evaluations"); if (!same) { violation("Set_xrange:grid-history:nodes-differ", "{\"grid\":" + jstr(gname) + ",\"got\":" + jarr(grid) + ",\"want\":" + jarr(gs.nodes) + "}"); return; } }
   for (unsigned ix = 0; ix < nx; ix++) for (unsigned ir = 0; ir < nrho; ir++) { std::vector<double> c = probe(d, (ix * 2 + ir) % 3); for (int k = 0; k < d * d; k++) c[k] += 0.21 * ix - 0.13 * ir * (k % 4); s.setrho(ix, ir, c); }
   if (tc.numerics) s.Set_CoherentRhoTerms(true);
   if (tc.tau != 0 || tc.numerics) s.Evolve(tc.tau);
@@ -158,17 +179,24 @@ int main(int argc, char** argv) {
   Args ar = parse(argc, argv); quiet_gsl();
   bool th = ar.thorough();
   std::vector<int> dims = (th && !ar.reduced) ? std::vector<int>{2, 3, 4, 5, 6} : (ar.reduced ? std::vector<int>{2, 3} : std::vector<int>{2, 3, 6});
-  std::vector<std::pair<std::string, std::vector<double>>> grids;
+  std::vector<GridSpec> grids;
   auto lin = [](unsigned n, double a, double b) { std::vector<double> g(n); for (unsigned i = 0; i < n; i++) g[i] = a + (b - a) * i / (n - 1); return g; };
   auto lg = [](unsigned n, double a, double b) { std::vector<double> g(n); for (unsigned i = 0; i < n; i++) g[i] = std::exp(std::log(a) + (std::log(b) - std::log(a)) * i / (n - 1)); return g; };
-  for (unsigned n : {2u, 3u, 4u, 5u, 7u}) grids.push_back({"linear" + std::to_string(n), lin(n, -1.0, 3.0)});
-  for (unsigned n : {2u, 3u, 5u}) grids.push_back({"log" + std::to_string(n), lg(n, 0.1, 20.0)});
-  grids.push_back({"user-a", {-2.0, -1.63, 1.48, 4.33, 9.0}}); grids.push_back({"user-b", {0.01, 0.0158, 0.05, 2.0}}); grids.push_back({"user-c", {-5.0, 1.0, 1.001, 100.0}});
+  for (unsigned n : {2u, 3u, 4u, 5u, 7u}) grids.push_back({"linear" + std::to_string(n), 0, -1.0, 3.0, lin(n, -1.0, 3.0)});
+  for (unsigned n : {2u, 3u, 5u}) grids.push_back({"log" + std::to_string(n), 1, 0.1, 20.0, lg(n, 0.1, 20.0)});
+  grids.push_back({"user-a", 2, 0, 0, {-2.0, -1.63, 1.48, 4.33, 9.0}}); grids.push_back({"user-b", 2, 0, 0, {0.01, 0.0158, 0.05, 2.0}}); grids.push_back({"user-c", 2, 0, 0, {-5.0, 1.0, 1.001, 100.0}});
   // elapsed time may be negative (Evolve(-dt) without numerics just moves the clock back): "any t-t_ini"
   std::vector<TimeCfg> tcs = {{0, 0, false}, {1.5, 0, false}, {1.5, 0.5, false}, {0, 2, false}, {1.5, 2, false}, {1.5, 0.5, true}, {0, 2, true}, {1.5, -1.25, false}, {0, -0.6, false}};
   if (ar.reduced) { grids.resize(3); tcs = {{1.5, 0.5, false}, {0, 2, true}, {1.5, -1.25, false}}; }
   long long caseno = 0;
-  for (int d : dims) for (auto& g : grids) for (auto& tc : tcs) { if ((caseno++ % ar.nshards) != ar.shard) continue; run_grid(d, g.second, g.first, tc, ar.reduced); }
+  // every grid through the vector overload and through its natural overload on a fresh object, for every time configuration; the
+  // histories that reach the grid on a used object for two time configurations
+  for (int d : dims) for (auto& g : grids) for (size_t ti = 0; ti < tcs.size(); ti++) for (int hist = 0; hist < N_GH; hist++) {
+    if (hist == GH_NATURAL && g.kind == 2) continue;
+    if (hist >= GH_AFTER_LIN && !(ti == 0 || ti == 2 % tcs.size())) continue;
+    if ((caseno++ % ar.nshards) != ar.shard) continue;
+    run_grid(d, g, hist, tcs[ti], ar.reduced || hist >= GH_AFTER_LIN);
+  }
   if (ar.shard == 0 && !ar.reduced) scratch_sequences();
   finish();
   return 0;
